@@ -223,6 +223,13 @@ class C04(Prop):
             "client_closing": gen.weighted([(5, st.just(False)), (1, st.just(True))]),
         })
 
+    def run_sched(self, case):
+        if not hasattr(self, "_sched"):
+            self.enumerations("quick")
+        inner = dict(case)
+        inner.pop("sched")
+        return self._sched.run_case(inner)
+
     def build_stream(self, case):
         v = dict(case["viol"])
         cls = v["class"]
@@ -255,6 +262,8 @@ class C04(Prop):
         return bytes(data), viol_at, built
 
     def run_case(self, case):
+        if case.get("sched"):
+            return self.run_sched(case)
         if "hdr" in case:
             return self.run_header(case)
         if "stream" in case:
@@ -379,7 +388,33 @@ class C04(Prop):
                         yield {"prefix": [text], "open": "text" if c in NEEDS_OPEN else None,
                                "viol": {"class": c, "a": a, "b": a // 3, "wide": False, "sent": sent},
                                "suffix": ["text"], "seg": "whole", "deflate": 0, "client_closing": False}
+        # "at most one Close frame" also while ANOTHER thread closes or sends: a scheduled stage (the deterministic
+        # scheduler of C11/C12; every thread order x every single preemption) in which the event loop meets the violation
+        from props import c12
+        from props.c11 import C11
+
+        class _Sched(C11):
+            id = "C04"
+
+            def scenarios(self_inner):
+                return {n: c12.SCENARIOS[n] for n in ("close_vs_protocol_error", "close_and_send_vs_bad_utf8")}
+
+            def judge(self_inner, scn, out):
+                return c12.judge(scn, out)
+
+            def bound2(self_inner):
+                return []
+
+            def first_use(self_inner):
+                return []
+        self._sched = _Sched()
+        inner = self._sched.enumerations(tier)[0]
+
+        def scheduled():
+            for c in inner.make():
+                yield dict(c, sched=True)
         return [Enumeration("all_65536_headers_x6_contexts", self.header_cases, exhaustive=True),
+                Enumeration("violation_met_while_another_thread_closes_or_sends", scheduled, exhaustive=True),
                 Enumeration("violating_payload_looks_like_a_template", templates, exhaustive=True),
                 after_every_prelude(battery), with_noise(battery), with_companion(battery), with_debug_log(battery)]
 
